@@ -2443,15 +2443,18 @@ where
 		let commit =
 			Commitment::from_vec(from_hex(&commitment).map_err(|e| Error::CommitDeser(e))?);
 
-		let secp_inst = static_secp_instance();
-		let secp = secp_inst.lock();
-
 		let mut keys = vec![];
-		for key in server_keys {
-			keys.push(SecretKey::from_slice(
-				&secp,
-				&grin_util::from_hex(&key).map_err(|e| Error::ServerKeyDeser(e))?,
-			)?)
+		{
+			// the secp context is only needed to parse the keys; it must be released
+			// before the wallet is locked below
+			let secp_inst = static_secp_instance();
+			let secp = secp_inst.lock();
+			for key in server_keys {
+				keys.push(SecretKey::from_slice(
+					&secp,
+					&grin_util::from_hex(&key).map_err(|e| Error::ServerKeyDeser(e))?,
+				)?)
+			}
 		}
 
 		let req_params = MixnetReqCreationParams {
